@@ -362,11 +362,22 @@ func Define[C any](p *Prop, name string, draw func(*rapid.T) C, run func(*Ctx, C
 // -rapid.checks (set by the driver).
 func (d *Def[C]) Check(t *testing.T) {
 	_ = os.RemoveAll("testdata/rapid")
+	inflight := os.Getenv("VERIF_INFLIGHT")
 	rapid.Check(t, func(rt *rapid.T) {
 		cas := d.Draw(rt)
 		d.P.Eval()
+		if inflight != "" {
+			// a death of the process (race detector halt, OOM, fatal error) leaves the
+			// case that was executing on disk, as a ready-to-use replay file
+			rf := ReplayFile{Property: d.P.ID, Test: d.Name, Sig: d.P.ID + "/process-death", Msg: "case in flight when the process died", Case: canon(cas)}
+			b, _ := json.Marshal(rf)
+			_ = os.WriteFile(inflight, b, 0o644)
+		}
 		d.Run(&Ctx{P: d.P, T: rt, def: d.Name, cas: cas, Mode: "rapid"}, cas)
 	})
+	if inflight != "" {
+		_ = os.Remove(inflight)
+	}
 }
 
 // One runs the body on one explicitly constructed case (enumerations,
